@@ -108,6 +108,9 @@ def averageifs(average_range, *args):
         return coords
 
     data = _numerics((average_range[r][c] for r, c in coords), keep_bools=True)
+    if isinstance(data, str):
+        # the error value of a selected cell
+        return data
     if len(data) == 0:
         return DIV0
     return sum(data) / len(data)
@@ -553,10 +556,10 @@ def maxifs(max_range, *args):
         if isinstance(coords, str):
             return coords
 
-        return max(_numerics(
-            (max_range[r][c] for r, c in coords),
-            keep_bools=True
-        ))
+        data = _numerics(
+            (max_range[r][c] for r, c in coords), keep_bools=True)
+        # A returned string is the error value of a selected cell
+        return data if isinstance(data, str) else max(data)
     except ValueError:
         return 0
 
@@ -595,10 +598,10 @@ def minifs(min_range, *args):
         if isinstance(coords, str):
             return coords
 
-        return min(_numerics(
-            (min_range[r][c] for r, c in coords),
-            keep_bools=True
-        ))
+        data = _numerics(
+            (min_range[r][c] for r, c in coords), keep_bools=True)
+        # A returned string is the error value of a selected cell
+        return data if isinstance(data, str) else min(data)
     except ValueError:
         return 0
 
